@@ -302,4 +302,14 @@ def mnv3_cases(refname, tx, cfg, lo, hi, w=9):
                     for b in B:
                         trip = tuple(sorted((a, b, c), key=lambda v: (v.start, v.end)))
                         out.append(Case(refname, small=trip, cfg=cfg))
+        # a third record AT the pair: another allele / an indel anchored at p or p+1 (it overlaps one member of the pair, so
+        # it sorts between the two adjacent SNVs: the pair must still be merged for the haplotypes that do not use it)
+        for q in (p, p + 1):
+            for c in small_alphabet(ref, tx, q, True):
+                for a in A:
+                    for b in B:
+                        if c == a or c == b:
+                            continue
+                        trip = tuple(sorted((a, b, c), key=lambda v: (v.start, v.end, v.alt)))
+                        out.append(Case(refname, small=trip, cfg=cfg))
     return out
